@@ -1153,6 +1153,9 @@ class Interp:
                 b = bases[0][1]
                 nb = NodeV(b.cls, {**b.fields, target.attr: newv}, b.path)
                 return self.store_back(target.value, nb, cfg)
+        if isinstance(target, ast.Call) and isinstance(target.func, ast.Attribute) and target.func.attr == "setdefault" and target.args:
+            # `d.setdefault(k, {})[q] = v`: the container that was changed is d[k]
+            return self.store_back(ast.copy_location(ast.Subscript(value=target.func.value, slice=target.args[0], ctx=ast.Store()), target), newv, cfg)
         if isinstance(target, ast.Subscript):
             # nested container: rebuild the outer container with the new inner value
             sub = Out()
@@ -1668,6 +1671,10 @@ class Interp:
             return h
         if isinstance(l, Sym) and isinstance(r, Sym) and l.tag and r.tag and l.tag[0] == "object" and r.tag[0] == "object":
             return l.tag == r.tag  # distinct opaque objects of a scenario
+        if isinstance(l, Sym) and isinstance(r, Sym) and l.tag and r.tag and l.tag[0] == r.tag[0] and l.tag[0] in ("clsattr", "g"):
+            d = self.identity(l, r)
+            if d is not None:
+                return d  # members of one enumeration class: equal exactly when identical
         if isinstance(l, Const) and isinstance(r, Const):
             try:
                 return l.v == r.v
@@ -2103,6 +2110,8 @@ class Interp:
                     return [(cfg, ListV([v for _, v in sorted(zip(keys, args[0].items), key=lambda kv: kv[0])], "list"))]
                 except TypeError:
                     pass
+        if fname == "frozenset" and len(args) == 1 and not kwargs and isinstance(args[0], ListV) and not any(isinstance(x, App) and x.op == "more" for x in args[0].items):
+            return [(cfg, ListV(tuple(dict.fromkeys(args[0].items)), "set"))]  # (an immutable set is a set for everything the rules observe)
         if fname == "dict.fromkeys" and len(args) in (1, 2) and not kwargs and isinstance(args[0], ListV) \
                 and not any(isinstance(x, App) and x.op == "more" for x in args[0].items):
             d = DictV(())
